@@ -275,6 +275,16 @@ def gen_inputs(tier, rng):
                 old, r = lst[i % len(lst)]
                 j = (i + off) % (nd * nc)
                 chosen.append((old, r, DESTS[j % nd], HANDLE_CONFIGS[j // nd]))
+        # guaranteed stratum: a COLLIDING whole assignment through a handle that has loaded nothing yet (the rollback of the
+        # rejected change has no in-memory copy to fall back on) - every lazy handle configuration, four routes each
+        from signac.job import calc_id
+        lazy = [c for c in HANDLE_CONFIGS if c[0] != "PInit" and c[0] != "PUninit" and not c[1] and c[2] == 0 and not c[4]]
+        changing = [(o, r) for o, r in by_kind.get("assign", []) if calc_id(untyped(r[1])) != calc_id(o)]
+        off = rng.randrange(len(changing))
+        for n, cfg in enumerate(lazy):
+            for j in range(4):
+                old, r = changing[(off + 4 * n + j) % len(changing)]
+                chosen.append((old, r, "DInit", cfg))
         # half of the cases read id / path / cached_statepoint / repr of the handle and its shallow copies BEFORE the
         # operation as well
         for old, r, dest, cfg in chosen:
